@@ -1031,6 +1031,11 @@ class Engine:
             self.exec_stmt(st, env)
 
     def exec_stmt(self, st, env):
+        hook = getattr(self, 'stmt_hook', None)
+        if hook is not None:
+            # a unit may state a precondition on an intermediate value at the statement that consumes it (used to say
+            # "the boundary lies beyond the reflection distance the code has just computed")
+            hook(self, st, env)
         m = getattr(self, 'st_' + st.__class__.__name__, None)
         if m is None:
             raise EngineError('statement %s outside the subset (line %s)'
